@@ -40,18 +40,40 @@ template<typename F> static void isolated(const std::string &cfg, F f) {
         std::getline(t, l1); std::getline(t, l2);
         while (std::getline(t, l)) last = l;
         if (l2.size() > 600) l2 = l2.substr(0, 600) + " ...";
-        R.violation(cfg + ": crashed with signal " + std::to_string(WTERMSIG(st)) + " (memory error, C17) during " + (last.empty() ? "construction" : last),
+        R.violation(std::string(cfg.find("wide-span probe") != std::string::npos ? "[ef-wide-span] " : "") + cfg + ": crashed with signal " + std::to_string(WTERMSIG(st)) + " (memory error, C17) during " + (last.empty() ? "construction" : last),
                     "{\"config\": \"" + cfg + "\", \"data\": \"" + l2 + "\"}");
     }
 }
 
+// classification of failure shapes that are recorded as known findings (see /verif/known_findings.json); the tag is part of the
+// violation text so that any OTHER failure of the same configuration is still reported as a new violation
+template<typename K> static std::string shape_tag(const std::string &cfg, const std::vector<K> &data, K q, bool ctor) {
+    if constexpr (std::is_floating_point_v<K>) {
+        for (size_t i = 1; i < data.size(); ++i) if (data[i] == 0 && data[i - 1] == 0) return "[float-zero-run] ";
+    } else {
+        if (cfg.rfind("Compressed", 0) == 0 && ctor) return "[compressed-ctor-closing-segment] ";
+        if (cfg.rfind("Compressed", 0) == 0 && sizeof(K) == 8 && !data.empty() && uint64_t(data.back()) >= (uint64_t(1) << 63)) return "[compressed-u64-high-half] ";
+    }
+    if (cfg.find("seam-shape=4") != std::string::npos) return "[par-final-run] ";
+    return "";
+}
+template<typename K> static bool skip_input(const std::string &cfg, const std::vector<K> &data) {
+    if constexpr (!std::is_floating_point_v<K>) {
+        using U = std::make_unsigned_t<K>;
+        // EliasFanoPGMIndex: the sdsl sd_vector constructor crashes when (last - first) needs all bits of the key type (known finding, probed separately)
+        if (cfg.rfind("EliasFano", 0) == 0 && !data.empty() && U(U(data.back()) - U(data.front())) >= (U(1) << (sizeof(K) * 8 - 1))) return true;
+    }
+    return false;
+}
+
 template<typename Index, typename K>
 static bool check_index(const std::vector<K> &data, const std::vector<K> &queries, size_t eps, const std::string &cfg) {
+    if (skip_input<K>(cfg, data) && cfg.find("probe") == std::string::npos) return true;
     if (const char *tf = g_trace.c_str(); *tf) { FILE *f = fopen(tf, "w"); fprintf(f, "%s\n", cfg.c_str()); for (auto k : data) fprintf(f, "%s ", vl::num(k).c_str()); fprintf(f, "\n"); fclose(f); }
     Index *pidx = nullptr;
     try { pidx = new Index(data.begin(), data.end()); }
     catch (const std::exception &e) {
-        if (R.seen.insert(cfg + "|ctor").second) R.violation(cfg + ": constructor threw on valid input: " + e.what(), "{\"config\": \"" + cfg + "\", \"n\": " + std::to_string(data.size()) + ", \"data\": " + vl::arr(data) + "}");
+        if (R.seen.insert(cfg + "|ctor").second) R.violation(shape_tag<K>(cfg, data, K(0), true) + cfg + ": constructor threw on valid input: " + e.what(), "{\"config\": \"" + cfg + "\", \"n\": " + std::to_string(data.size()) + ", \"data\": " + vl::arr(data) + "}");
         if (getenv("VL_DUMP")) { FILE *f = fopen(getenv("VL_DUMP"), "a"); fprintf(f, "%s\nctor\n", cfg.c_str()); for (auto k : data) fprintf(f, "%s ", vl::num(k).c_str()); fprintf(f, "\n"); fclose(f); }
         return true;
     }
@@ -69,8 +91,8 @@ static bool check_index(const std::vector<K> &data, const std::vector<K> &querie
         else if (r.hi - r.lo > 2 * eps + 2) bad = "range wider than 2*eps+2";
         else if (!(r.lo <= lb && lb <= r.hi)) bad = "lower bound outside [lo,hi] (C02)";
         else if (present && !(lb < r.hi)) bad = "first occurrence of a present key not inside [lo,hi) (C01)";
-        if (!bad.empty() && R.seen.insert(cfg + "|" + bad).second) {
-            R.violation(cfg + ": " + bad + ": query " + vl::num(q) + " -> [" + std::to_string(r.lo) + "," + std::to_string(r.hi) + "), lower_bound " + std::to_string(lb) + ", n " + std::to_string(data.size()),
+        if (!bad.empty() && R.seen.insert(shape_tag<K>(cfg, data, q, false) + cfg + "|" + bad).second) {
+            R.violation(shape_tag<K>(cfg, data, q, false) + cfg + ": " + bad + ": query " + vl::num(q) + " -> [" + std::to_string(r.lo) + "," + std::to_string(r.hi) + "), lower_bound " + std::to_string(lb) + ", n " + std::to_string(data.size()),
                         "{\"config\": \"" + cfg + "\", \"query\": \"" + vl::num(q) + "\", \"n\": " + std::to_string(data.size()) + ", \"data\": " + vl::arr(data) + "}");
             if (getenv("VL_DUMP")) { FILE *f = fopen(getenv("VL_DUMP"), "a"); fprintf(f, "%s\nquery %s\n", cfg.c_str(), vl::num(q).c_str()); for (auto k : data) fprintf(f, "%s ", vl::num(k).c_str()); fprintf(f, "\n"); fclose(f); }
             ok = false;
@@ -118,14 +140,15 @@ static void seams(size_t eps, const std::string &cfg, int threads, uint64_t seed
     std::mt19937_64 rng(seed);
     omp_set_num_threads(threads);
     int par = std::min(std::min(omp_get_num_procs(), omp_get_max_threads()), 20);
-    for (int shape = 0; shape < 4; ++shape) {
+    for (int shape = 0; shape < 5; ++shape) {
         size_t n = (size_t(1) << 15) + (shape == 3 ? 1237 : 0);
         size_t chunk = n / par;
         std::vector<K> d(n);
         using U = std::make_unsigned_t<std::conditional_t<std::is_floating_point_v<K>, int64_t, K>>;
         // strictly increasing base with gaps of 3, then runs of equal keys around every chunk boundary
         for (size_t i = 0; i < n; ++i) d[i] = K(std::numeric_limits<K>::lowest() / 2 + K(3 * i));
-        for (int c = 1; c < par; ++c) {
+        if (shape == 4) { for (size_t i = n - chunk - 7; i < n; ++i) d[i] = d[n - chunk - 7]; }
+        for (int c = 1; c < par && shape != 4; ++c) {
             size_t b = c * chunk;
             size_t from = shape == 0 ? b - 50 : shape == 1 ? b - 1 : b - 20;
             size_t to = shape == 0 ? b : shape == 1 ? b + 40 : b + 20;      // run = [from, to)
@@ -136,6 +159,7 @@ static void seams(size_t eps, const std::string &cfg, int threads, uint64_t seed
         std::vector<K> qs;
         for (int c = 1; c < par; ++c)
             for (size_t i = c * chunk - 60; i < c * chunk + 60 && i < n; ++i) { qs.push_back(d[i]); qs.push_back(vl::succ(d[i])); qs.push_back(vl::pred(d[i])); }
+        qs.push_back(vl::succ(d.back())); qs.push_back(d.back());
         std::sort(qs.begin(), qs.end());
         qs.erase(std::unique(qs.begin(), qs.end()), qs.end());
         if (!check_index<Index, K>(d, qs, eps, cfg + " threads=" + std::to_string(threads) + " seam-shape=" + std::to_string(shape))) return;
@@ -207,6 +231,8 @@ int main(int argc, char **argv) {
     RUN_ALL(1, "EliasFanoPGMIndex<uint32_t,1>", EFI(uint32_t, 1));
     RUN_ALL(2, "EliasFanoPGMIndex<uint32_t,2>", EFI(uint32_t, 2));
     RUN_ALL(1, "EliasFanoPGMIndex<uint16_t,1>", EFI(uint16_t, 1));
+    isolated("EliasFanoPGMIndex<uint64_t,1> wide-span probe", [&] { std::vector<uint64_t> d{0, UINT64_MAX - 1001, UINT64_MAX - 1}; check_index<EFI(uint64_t, 1)>(d, {5, UINT64_MAX - 2}, 1, "EliasFanoPGMIndex<uint64_t,1> wide-span probe"); });
+    isolated("EliasFanoPGMIndex<uint32_t,1> wide-span probe", [&] { std::vector<uint32_t> d{0, UINT32_MAX - 1}; check_index<EFI(uint32_t, 1)>(d, {5, UINT32_MAX - 2}, 1, "EliasFanoPGMIndex<uint32_t,1> wide-span probe"); });
 #endif
     unlink(g_trace.c_str());
     return R.finish(false);
